@@ -27,9 +27,9 @@ CLAIMED["C13"] = ("full", "6/C13", "Lean 4 proof by induction over the record lo
   "include_is_shifted_patch + malformed_rejected for every byte string and every signed delta (plain, run-length, max-length records). Tie: stream S8-ipsr (records of all kinds, truncations, bad header, no EOF, trailing bytes, exact file sizes k*8192+{-3..3}) and S8-include-in-program (surroundings unaffected, records in order).",
   "File I/O (open/read) is modelled as a byte list; buffering behaviour is exercised by the size-at-buffer-boundary files.")
 
-CLAIMED["C18"] = ("encoding full; round trip by correspondence", "6/C18", "Lean 4 proof by induction over the string (to_bytes = reference longest-match encoder for every table and string; the min(len, max_text_length) bound loses no match; fuel sufficiency = termination) + differential correspondence of script.Table",
-  "tryLen_longest, toBytes_is_encode, toBytes_fuel, jokerMatch_eq_escape, longest_isLongest. Tie: stream S9 (generated tables with overlapping prefixes, multi-byte codes, ignore suffixes, junk lines x strings with escapes and unknown characters; encode, decode; round trip on unique prefix-free tables as oracle on the real code) and S9-text-in-program (size in layout, table inheritance).",
-  "The decode round-trip theorem is not yet proved in Lean (it is checked by the oracle on generated prefix-free tables); table file parsing is a hand-written recogniser of the regex tied by correspondence.")
+CLAIMED["C18"] = ("full: encoding = longest match for every table and string, decode round trip for every decodable table", "6/C18", "Lean 4 proof by induction over the string (to_bytes = reference longest-match encoder for every table and string; the min(len, max_text_length) bound loses no match; fuel sufficiency = termination) and over the entry sequence (to_text of the concatenated codes of a unique, prefix-free table returns the texts: a longer matching code would have the emitted code as a proper prefix) + differential correspondence of script.Table",
+  "tryLen_longest, toBytes_is_encode, toBytes_fuel, jokerMatch_eq_escape, longest_isLongest, roundtrip (Decodable tables: unique, non-empty, prefix-free codes, no ignore suffix), tryLenBytes_found. Tie: stream S9 (generated tables with overlapping prefixes, multi-byte codes, ignore suffixes, junk lines x strings with escapes and unknown characters; encode, decode; round trip on unique prefix-free tables as oracle on the real code) and S9-text-in-program (size in layout, table inheritance, escapes / unknown characters / escaped quotes inside programs).",
+  "Table file parsing is a hand-written recogniser of the regex tied by correspondence. That to_bytes of a string over a single-character table yields exactly the codes of its characters (so that the round trip applies to to_text(to_bytes(s))) is checked by the oracle on generated tables, not yet composed in Lean.")
 
 CLAIMED["C02"] = ("full on the model after the F02 repair; no-spurious-rejection partial", "6/C02", "Lean 4 proof by induction over the emission loop of the passes model (every label / incbin node is emitted at the address the label pass recorded, or emission fails) + per-statement-kind size-agreement lemmas (omega / case analysis) + differential correspondence of the whole pipeline with per-node trace",
   "C02_labels, label_moved_fails, next_byte_at_label, label_pass_value, data/ascii/text/incbin/implied/relative/sized(suffix)/sized(inferred, same value) size_agree. Tie: whole-pipeline model (scanner+parser+codegen+passes) vs real assembler on generated programs (writes block by block, labels in order, outcome), oracle on the real run: address in the label pass = address at emission for every node, label value = run address; width-unstable and duplicate-label programs must be rejected.",
